@@ -1,0 +1,133 @@
+//! Read-only projection of `Connection` for external verification harnesses (`verif-hooks`)
+use super::{Connection, State, paths::PathData, spaces::PacketSpace, timer::Timer};
+use crate::{
+    Instant,
+    packet::SpaceId,
+    verif::{ConnProbe, PathProbe, SpaceProbe, us},
+};
+
+fn path_probe(p: &PathData) -> PathProbe {
+    PathProbe {
+        remote: Some(p.remote),
+        generation: p.generation(),
+        validated: p.validated,
+        total_sent: p.total_sent,
+        total_recvd: p.total_recvd,
+        challenge: p.challenge.is_some(),
+        challenge_pending: p.challenge_pending,
+        in_flight_bytes: p.in_flight.bytes,
+        in_flight_ack_eliciting: p.in_flight.ack_eliciting,
+        mtu: p.current_mtu(),
+        cwnd: p.congestion.window(),
+        sending_ecn: p.sending_ecn,
+        rtt_us: p.rtt.get().as_micros() as u64,
+        pto_base_us: p.rtt.pto_base().as_micros() as u64,
+    }
+}
+
+fn space_probe(s: &PacketSpace, epoch: Instant) -> SpaceProbe {
+    SpaceProbe {
+        has_keys: s.crypto.is_some(),
+        next_pn: s.next_packet_number,
+        largest_acked: s.largest_acked_packet,
+        rx_packet: s.rx_packet,
+        dedup_next: s.dedup.verif_next(),
+        loss_probes: s.loss_probes,
+        ping_pending: s.ping_pending,
+        immediate_ack_pending: s.immediate_ack_pending,
+        sent: s
+            .sent_packets
+            .range(..)
+            .map(|(pn, p)| {
+                (
+                    pn,
+                    p.size,
+                    p.ack_eliciting,
+                    p.path_generation,
+                    us(p.time_sent, epoch),
+                )
+            })
+            .collect(),
+        lost_packets: s.lost_packets.len(),
+        loss_time_us: s.loss_time.map(|t| us(t, epoch)),
+        last_ack_eliciting_us: s.time_of_last_ack_eliciting_packet.map(|t| us(t, epoch)),
+        unacked_non_ack_eliciting_tail: s.unacked_non_ack_eliciting_tail,
+        largest_ack_eliciting_sent: s.largest_ack_eliciting_sent,
+        crypto_offset: s.crypto_offset,
+        crypto_read: s.crypto_stream.bytes_read(),
+        pending_crypto: s.pending.crypto.len(),
+        pending_retire_cids: s.pending.retire_cids.len(),
+        pending_new_cids: s.pending.new_cids.len(),
+        pending_max_data: s.pending.max_data,
+        pending_reset_stream: s.pending.reset_stream.len(),
+        pending_stop_sending: s.pending.stop_sending.len(),
+        pending_max_stream_data: s.pending.max_stream_data.len(),
+        pending_new_tokens: s.pending.new_tokens.len(),
+        pending_ack_ranges: s.pending_acks.ranges().len(),
+        pending_handshake_done: s.pending.handshake_done,
+    }
+}
+
+impl Connection {
+    /// Read-only projection of the connection state for external verification harnesses
+    ///
+    /// Instants are reported as microsecond offsets from `epoch`.
+    pub fn verif_probe(&self, epoch: Instant) -> ConnProbe {
+        let mut timers = [None; 9];
+        for &t in &Timer::VALUES {
+            timers[t as usize] = self.timers.get(t).map(|x| us(x, epoch));
+        }
+        let (loc_cid_issued, loc_cid_active) = self.local_cid_state.verif_probe();
+        ConnProbe {
+            state: match self.state {
+                State::Handshake(_) => 0,
+                State::Established => 1,
+                State::Closed(_) => 2,
+                State::Draining => 3,
+                State::Drained => 4,
+            },
+            close_flag: self.close,
+            error_pending: self.error.is_some(),
+            events_pending: self.events.len(),
+            endpoint_events_pending: self.endpoint_events.len(),
+            highest_space: self.highest_space as u8,
+            spaces: [
+                space_probe(&self.spaces[SpaceId::Initial], epoch),
+                space_probe(&self.spaces[SpaceId::Handshake], epoch),
+                space_probe(&self.spaces[SpaceId::Data], epoch),
+            ],
+            path: path_probe(&self.path),
+            prev_path: self.prev_path.as_ref().map(|(_, p)| path_probe(p)),
+            timers,
+            pto_count: self.pto_count,
+            pto_us: [
+                self.pto(SpaceId::Initial).as_micros() as u64,
+                self.pto(SpaceId::Handshake).as_micros() as u64,
+                self.pto(SpaceId::Data).as_micros() as u64,
+            ],
+            key_phase: self.key_phase,
+            prev_crypto: self.prev_crypto.is_some(),
+            zero_rtt_keys: self.zero_rtt_crypto.is_some(),
+            zero_rtt_enabled: self.zero_rtt_enabled,
+            accepted_0rtt: self.accepted_0rtt,
+            idle_timeout_us: self.idle_timeout.map(|d| d.as_micros() as u64),
+            permit_idle_reset: self.permit_idle_reset,
+            app_limited: self.app_limited,
+            authentication_failures: self.authentication_failures,
+            total_authed_packets: self.total_authed_packets,
+            path_responses_empty: self.path_responses.is_empty(),
+            streams: self.streams.verif_probe(),
+            dgram_incoming: self.datagrams.incoming.len(),
+            dgram_recv_buffered: self.datagrams.recv_buffered,
+            dgram_outgoing: self.datagrams.outgoing.len(),
+            dgram_outgoing_total: self.datagrams.outgoing_total,
+            dgram_send_blocked: self.datagrams.send_blocked,
+            rem_cid_active_seq: self.rem_cids.active_seq(),
+            loc_cid_issued,
+            loc_cid_active,
+            loc_cid_retire_prior_to: self.local_cid_state.retire_prior_to(),
+            peer_max_ack_delay_us: self.ack_frequency.peer_max_ack_delay.as_micros() as u64,
+            max_ack_delay_us: self.ack_frequency.max_ack_delay.as_micros() as u64,
+        }
+    }
+}
